@@ -13,6 +13,7 @@
 #include <unistd.h>
 
 #include <iostream>
+#include <iomanip>
 #include <sstream>
 
 #include "reflect.hpp"
@@ -39,6 +40,27 @@ std::string vf_streamed(X e, bool& has) {
     has = false;
     return "";
   }
+}
+// "streams as that abbreviation" in every stream state: with a pending field width, either adjustment and a fill character
+// the same statement with Abbreviation(e) in place of e gives the same characters and leaves the same stream state.
+template <class X>
+std::string vf_stream_state_difference(X e) {
+  if constexpr (VfStreams<X>::value) {
+    const std::string_view ab = PhQ::Abbreviation(e);
+    for (int st = 0; st < 4; st++) {
+      std::ostringstream a, b;
+      for (std::ostringstream* o : {&a, &b}) {
+        if (st == 0) *o << std::setw((int)ab.size() + 6) << std::setfill('*');
+        if (st == 1) *o << std::left << std::setw((int)ab.size() + 9) << std::setfill('.');
+        if (st == 2) *o << std::internal << std::setw(3);
+        if (st == 3) *o << std::setw(1) << std::uppercase << std::showpos;
+      }
+      a << e << '|' << e << '|' << 7;
+      b << ab << '|' << ab << '|' << 7;
+      if (a.str() != b.str() || a.width() != b.width() || a.flags() != b.flags()) return "state " + std::to_string(st) + ": streamed [" + a.str() + "] abbreviation streamed [" + b.str() + "]";
+    }
+  }
+  return "";
 }
 }  // namespace PhQ
 
@@ -74,6 +96,7 @@ static void dump_one(const vf::Enumerator<E>& en) {
       o << ",\"streamed\":" << J(st);
     else
       o << ",\"streamed\":null";
+    o << ",\"stream_state_difference\":" << J(PhQ::vf_stream_state_difference(e));
   }
   {
     auto p = PhQ::ParseEnumeration<E>(ab);
